@@ -623,7 +623,11 @@ class BuiltinsMixin:
             n = len(obj.items)
             k = parts[1].e
             opts = [k == v for v in range(n)] + [k >= n]
-            which = self.run.fork(opts + [k < 0], label="slice bound")
+            # a negative bound is only considered if a longer solver call cannot exclude it
+            self.run.solver.set("timeout", 3000)
+            neg = self.run.solver.check(k < 0) == z3.sat
+            self.run.solver.set("timeout", getattr(self.c, "prune_timeout_ms", None) or self.run.x.prune_timeout_ms)
+            which = self.run.fork(opts + ([k < 0] if neg else []), label="slice bound")
             if which > n:
                 raise Unsupported("negative symbolic slice bound on a list")
             return SList(obj.items[: min(which, n)])
